@@ -500,14 +500,23 @@ def run_hostile_dir_case(prog, params):
         sr.do('fs R phys')
         sr.do('join d R %s' % hx(b'd'))
         sr.do('create_dir d')
-        sr.do('rawfile R %s' % hx(name))
-        for line in ['read_dir R', 'walk_dir R', 'exists d', 'read_dir d', 'remove_dir_all d', 'remove_dir_all R']:
+        kind = params.get('kind', 'file')
+        sr.do({'file': 'rawfile', 'socket': 'rawsock', 'dangling_link': 'rawlink'}[kind] + ' R %s' % hx(name))
+        lines = ['read_dir R', 'walk_dir R', 'exists d', 'read_dir d', 'remove_dir_all d', 'remove_dir_all R']
+        if kind != 'file':
+            sr.do('join s R %s' % hx(name))
+            lines = ['exists s', 'metadata s', 'is_file s', 'is_dir s', 'read_dir R', 'create_dir s', 'create_dir_all s', 'walk_dir R', 'remove_dir_all d', 'remove_dir_all R']
+        what = {'file': 'a file whose name is %r' % name, 'socket': 'a unix socket', 'dangling_link': 'a dangling symbolic link'}[kind]
+        for line in lines:
             sr.do(line)
             o = sr.last
             if o is not None and o.tag in ('panic', 'deadlock'):
-                findings.append(make_finding('C13', 'phys|hostile_name|%s|panic:%s' % (line.split()[0], o.where or '?'),
-                                             '`%s` panics when the directory holds a file whose name is %r: %s' % (line, name, o.msg), sr))
+                findings.append(make_finding('C13', 'phys|hostile_%s|%s|panic:%s' % ('name' if kind == 'file' else kind, line.split()[0], o.where or '?'),
+                                             '`%s` panics when the directory holds %s: %s' % (line, what, o.msg), sr))
                 break
+            if line == 'create_dir s' and 'C12' in params.get('props', ()) and o is not None and o.tag == 'err' and o.kind not in ('FileExists', 'DirectoryExists'):
+                findings.append(make_finding('C12', 'phys|hostile_%s|create_dir|misclassified:%s' % (kind, o.kind),
+                                             'create_dir on a name occupied by %s reports %s, not file-exists' % (what, o.kind), sr))
         if not res.samples:
             res.samples.append({'raw_name': repr(name), 'script': [l for l, _ in sr.log]})
         return findings
